@@ -472,6 +472,9 @@ func c11RunStress(r *rand.Rand, dir string) c11Stress {
 		st.SearchesRec += 2 * k
 		st.CounterSum += col.Counter("first_use_total", map[string]string{"kind": "x"}).Value()
 		st.CounterSum += col.Histogram("first_use_seconds", nil).Count()
+		// ... and the histogram's sum: k observations of 1 add up to exactly k
+		st.SearchesRec += k
+		st.CounterSum += int64(col.Histogram("first_use_seconds", nil).Sum())
 		if round%4 == 0 {
 			st.SearchesRec += k
 			st.HitMissExpected += k
@@ -485,6 +488,66 @@ func c11RunStress(r *rand.Rand, dir string) c11Stress {
 					st.Misses += int64(m.Value)
 				}
 			}
+		}
+	}
+	{
+		h := metrics.NewCollector().Histogram("busy_seconds", nil)
+		var wg3 sync.WaitGroup
+		const g3, per = 8, 20000
+		for g := 0; g < g3; g++ {
+			wg3.Add(1)
+			go func() {
+				defer wg3.Done()
+				for i := 0; i < per; i++ {
+					h.Observe(1)
+				}
+			}()
+		}
+		wg3.Wait()
+		st.SearchesRec += 2 * g3 * per
+		st.CounterSum += h.Count() + int64(h.Sum())
+	}
+	// the same query with the same scalar options but different platform lists / context boosts, asked at the same
+	// moment on a cold cache: each must get its own answer
+	{
+		type vreq struct {
+			o    database.SearchOptions
+			want []eRes
+		}
+		q := reqs[0].q
+		base := reqs[0].o
+		base.AllPlatforms, base.NoCrossPlatform, base.PipelineOnly = false, false, false
+		var vs []vreq
+		for _, pl := range [][]string{{"linux"}, {"windows"}, {"macos"}, nil} {
+			o := base
+			o.Platforms = pl
+			vs = append(vs, vreq{o, projectResults(db, db.SearchUniversal(q, o))})
+		}
+		ob := base
+		ob.ContextBoosts = map[string]float64{"files": 3, "list": 2.5, "git": 2}
+		vs = append(vs, vreq{ob, projectResults(db, db.SearchUniversal(q, ob))})
+		cdb := database.NewCachedDatabase(db)
+		for round := 0; round < 150; round++ {
+			cdb.InvalidateCache()
+			start := make(chan struct{})
+			var wg4 sync.WaitGroup
+			for g := 0; g < 2*len(vs); g++ {
+				wg4.Add(1)
+				go func(g int) {
+					defer wg4.Done()
+					v := vs[g%len(vs)]
+					<-start
+					p := projectResults(db, cdb.SearchWithOptionsAndCache(q, v.o))
+					calls.Add(1)
+					if fmt.Sprint(p) != fmt.Sprint(v.want) {
+						if bad.Add(1) == 1 {
+							firstBad.Store(fmt.Sprintf("same query, different platforms/boosts, cold cache: q=%q platforms=%v got=%v want=%v", q, v.o.Platforms, p, v.want))
+						}
+					}
+				}(g)
+			}
+			close(start)
+			wg4.Wait()
 		}
 	}
 	st.Calls, st.Mismatches = calls.Load(), bad.Load()
